@@ -196,6 +196,23 @@ func (w *world) exec(line string, retention time.Duration) string {
 		}
 		e := w.fromPB(&pb.MeshEntry{Entry: es[0], ExpiresAt: timestamppb.New(w.t0)})
 		return fmt.Sprintf("%s,%d,%s,%s,%s", e.key, e.ts, hx.U64s(e.firing), hx.U64s(e.resolved), e.data)
+	case "storemut":
+		// what a notifier does with the receiver data of a queried entry: derive a Store, edit it.
+		// Nothing is logged, so the log must be unchanged.
+		i, _ := strconv.Atoi(t[1])
+		w.sleepTo(hx.Atoi64(t[2]))
+		gk, r := splitKey(t[3])
+		es, err := w.logs[i].Query(nflog.QGroupKey(gk), nflog.QReceiver(r))
+		if err != nil || len(es) != 1 {
+			return "notfound " + w.dump(i)
+		}
+		st := nflog.NewStore(es[0])
+		st.SetStr("d", t[4])
+		st.SetInt("n", 7)
+		if t[4] == "del" {
+			st.Delete("d")
+		}
+		return "edited " + w.dump(i)
 	case "reload":
 		i, _ := strconv.Atoi(t[1])
 		var buf bytes.Buffer
@@ -212,7 +229,8 @@ func (w *world) exec(line string, retention time.Duration) string {
 
 var (
 	keys = []string{"g1:r1/webhook/0", "g1:r1/email/1", "g2:r1/webhook/0", "g2:r2/slack/0", "g3:r2/slack/0"}
-	grid = int64(time.Second) // instants are multiples of 1s: ties are frequent by construction
+	grid = int64(300 * time.Millisecond) // instants are multiples of 0.3 s: ties are frequent by construction and
+	// timestamps differ in seconds and in nanoseconds independently (k*0.3 s mod 1 s takes the values .0 .3 .6 .9 .2 .5 .8 .1 .4 .7)
 )
 
 type gen struct {
@@ -383,8 +401,10 @@ func runCase(t *testing.T, tr *hx.Trace, id int, r *rand.Rand, script []string) 
 				do(fmt.Sprintf("merge %d %d %s %s", i, g.now, w.oversized(b), entriesStr(b)))
 			case x < 15 && !conv:
 				do(fmt.Sprintf("gc %d %d", i, g.now))
-			case x < 19:
+			case x < 18:
 				do(fmt.Sprintf("query %d %d %s", i, g.now, hx.Pick(r, keys)))
+			case x < 19:
+				do(fmt.Sprintf("storemut %d %d %s %s", i, g.now, hx.Pick(r, keys), hx.Pick(r, []string{"m1", "m2", "del"})))
 			default:
 				do(fmt.Sprintf("reload %d", i))
 			}
